@@ -147,7 +147,7 @@ def cases(draw, tier):
                                ANYTEXT1)),
         "table_id": draw(st.one_of(st.none(), ANYTEXT1)),
         "form": draw(st.sampled_from(gen.FORMS)),
-        "history": draw(ops.histories("any")),
+        "history": draw(ops.histories("any", poke=True)),
     }
     return {"table": spec, "generated_by": draw(ANYTEXT1),
             "date": c01.date_to_json(draw(c01.DATES)),
